@@ -167,7 +167,8 @@ def gen_solve(d: Draw, planet_id, sol_id, spec):
     elif fault == 'mangle':
         op['mangle'] = {'kind': d.pick(['short_array', 'wrong_dtype', 'noncontiguous', 'layer_type', 'tuple_len', 'upper_radius_list',
                                         'empty_interior_layer', 'empty_interior_layer', 'upper_radius_not_increasing',
-                                        'first_upper_radius_zero']),
+                                        'first_upper_radius_zero', 'top_boundary_inside_grid', 'top_boundary_inside_grid',
+                                        'top_boundary_above_grid']),
                         'which': d.below(5)}
     elif fault == 'degree':
         o['degree_l'] = d.pick([0, 1])
